@@ -8,7 +8,17 @@
    process with another environment and working directory; in another thread).
    PropFail (k * 4096 + j): run number k (1-based in the list) differs from run (i) first at operation j.
    Disagree (j * 8 + c): run (i) differs from the model at operation j; c = 1 returned value / log, 2 outcome,
-   3 decoded state, 4 raw keys outside every modelled window, 7 transcript length. *)
+   3 decoded state, 4 raw keys outside every modelled window, 7 transcript length.
+
+   WHAT IS COMPARED WHERE.  Relational half (p_c19 / p_alt): every operation of every run, the whole observation
+   record: returned value (code id / probe answers / log + responses with events and data or error-ness), error
+   text, decoded bank / registry / contract-storage windows, number of keys outside them, SHA-256 of the COMPLETE
+   raw store (so also the staking and distribution windows, which are not decoded).  Correspondence half (corr19):
+   returned value, decoded modelled windows, keys outside the windows — of run (i) only, against the model.  At an
+   OPAQUE operation (Det.IOpaque: staking / distribution / update_block) the model predicts nothing: it takes the
+   responses, the block and the modelled windows of run (i) as given, so the correspondence holds there by
+   construction; the staking / distribution windows are never compared with the model (only across runs, through
+   the digest), before or after an opaque step. *)
 From Verif Require Import Base OMap Text Proto Bank Exec ChkExec ChkX Det.
 Local Open Scope N_scope.
 
@@ -31,6 +41,7 @@ Definition iout_eqb (a b : iout) : bool :=
   | RUnit, RUnit => true
   | RProbe b1 l1, RProbe b2 l2 => blk_eqb b1 b2 && list_eqb (option_eqb cinfo_eqb) l1 l2
   | RTop t1 o1, RTop t2 o2 => trace_eqb t1 t2 && out_eqb o1 o2
+  | ROpaque o1 b1, ROpaque o2 b2 => out_eqb o1 o2 && blk_eqb b1 b2
   | _, _ => false
   end.
 
@@ -156,6 +167,7 @@ Proof.
   - rewrite (outcome_eqb_eq _ N.eqb_eq). fin.
   - rewrite andb_true_iff, blk_eqb_eq, (list_eqb_eq _ (option_eqb_eq _ cinfo_eqb_eq)). fin.
   - rewrite andb_true_iff, trace_eqb_eq, out_eqb_eq. fin.
+  - rewrite andb_true_iff, out_eqb_eq, blk_eqb_eq. fin.
 Qed.
 
 Lemma iobs_eqb_eq a b : iobs_eqb a b = true <-> a = b.
@@ -237,7 +249,7 @@ Qed.
 
 Lemma iout_diff_zero m o : iout_diff m o = 0 -> m = o.
 Proof.
-  destruct m as [x| |b l|tr o1], o as [y| |b' l'|tr' o2]; cbn [iout_diff];
+  destruct m as [x| |b l|tr o1|oo bb], o as [y| |b' l'|tr' o2|oo' bb']; cbn [iout_diff];
     try (destruct (iout_eqb _ _) eqn:E; [|discriminate]; intros _; apply iout_eqb_eq in E; exact E).
   destruct (trace_eqb tr tr') eqn:E1; cbn [negb]; [|discriminate].
   destruct (out_eqb o1 o2) eqn:E2; cbn [negb]; [|discriminate].
